@@ -846,7 +846,12 @@ fn run_program(srv: &mut Server, tag: &str, prog: &[Value]) -> Vec<Value> {
             req["h"] = h;
         }
         let rep = srv.call(&req);
+        let failed = rep.get("ok").is_none();
         out.push(rep);
+        if failed {
+            // a caller whose call failed does not carry on with the session
+            break;
+        }
     }
     marker(&format!("end:{tag}"));
     out
